@@ -16,7 +16,7 @@ class World:
 
         self.pool = []
         self.rng = rng
-        self.curve = None if k < 0 else Curve(Array([float(i) for i in range(k)], "m"), Array([float(i) for i in range(k)], "s"))
+        self.curve = None if k < 0 else Curve(Array([100.0 + i for i in range(k)], "m"), Array([float(i) for i in range(k)], "s"))
 
     def cont(self, vals):
         import numpy
@@ -65,9 +65,18 @@ class World:
             return a.ChangingIndex(c["idx"], (7.5, c["u"]))
         if op == "IndexAsScalar":
             return a.IndexAsScalar(c["idx"], q(c["u"]))
+        if op == "CurveLen":
+            return float(self.curve.GetLength())
+        if op == "CurveItem":
+            import numpy
+            d_, i_ = self.curve[c["idx"]]
+            d0, i0 = float(numpy.ravel(d_)[0]), float(numpy.ravel(i_)[0])
+            if i0 != d0 + 100.0:     # (image amounts are 100 + position, domain amounts the position)
+                raise AssertionError("curve[%d] pairs domain %r with image %r" % (c["idx"], d_, i_))
+            return d0
         if op in ("SetImage", "SetDomain"):
             import numpy
-            flat = [float(i) for i in range(c["n"])]
+            flat = [float(i) + (100.0 if op == "SetImage" else 0.0) for i in range(c["n"])]
             vals_ = flat if c.get("form", "") == "" else [(x, x + 0.5) for x in flat]
             if c.get("form") == "points2d":
                 vals_ = numpy.array(vals_, dtype=float).reshape(c["n"], 2)
@@ -122,6 +131,10 @@ def replay_one(t, rep, rng, curve0):
             want = s["x"][0] / s["x"][1]
             if type(o[1]).__name__ != "Scalar" or abs(o[1].GetValue() - want) > 1e-9 * max(1.0, abs(want)) or o[1].GetUnit() != c["u"]:
                 d.append("IndexAsScalar predicted %r %s observed %r" % (want, c["u"], o[1]))
+        elif c["op"] in ("CurveLen", "CurveItem"):
+            want = s["x"][0] / s["x"][1]
+            if not isinstance(o[1], float) or o[1] != want:
+                d.append("%s predicted %r observed %r" % (c["op"], want, o[1]))
         if ok and w.snapshot()[0][:len(before[0])] != before[0]:
             d.append("an existing array changed")
         cv = w.snapshot()[1]
